@@ -24,6 +24,7 @@ struct Config {
     std::vector<uint32_t> prio;
     std::vector<uint64_t> change_points;
     uint64_t max_decisions = 50000;
+    uint64_t max_virtual_ns = 0; // 0 = unlimited; exceeding it is reported as a hang (kind 3)
     unsigned spin_limit = 64; // consecutive decisions of one thread while others are runnable
     bool atomics_are_points = true;
 };
@@ -44,6 +45,7 @@ struct Stats {
 //   kind 0: deadlock (no runnable thread, no deadline)      -> property failure
 //   kind 1: decision bound exceeded                          -> inconclusive
 //   kind 2: misuse detected by the scheduler (unlock of a mutex held by another thread, ...)
+//   kind 3: virtual time ran past Config.max_virtual_ns (the program keeps waking up but never finishes) -> hang
 extern void (*on_fatal)(int kind, const char *msg);
 
 // Runs body as thread 0 under the scheduler on the calling thread; returns after every thread
